@@ -35,7 +35,8 @@ type C19 struct{}
 
 type c19Model struct {
 	Blocks int
-	Done   []string // events already performed (each record kind is created once)
+	At     map[string]int // block count at which an event was performed
+	Done   []string       // events already performed (each record kind is created once)
 	Start  int64
 }
 
@@ -60,7 +61,7 @@ func (C19) Name() string         { return "C19/export-import" }
 func (C19) Config() world.Config { return c19Config() }
 func (C19) Stores() []string     { return c19Stores }
 func (C19) Init(env world.Env) mc.Model {
-	return c19Model{}
+	return c19Model{At: map[string]int{}}
 }
 
 // one event per record kind; an event is enabled once its prerequisites were performed
@@ -75,6 +76,10 @@ var c19Kinds = []struct {
 	{"Register", nil}, {"AddRecord", []string{"Register"}}, {"Bid", nil}, {"List", []string{"Register"}}, {"RnsInit", nil},
 	{"Provision", nil}, {"PostKey", nil}, {"FtPost", []string{"Provision"}},
 	{"CreateFeed", nil}, {"Notify", nil}, {"Block", nil},
+	// second instances that share part of their identity with the first (same content and owner in a later block,
+	// same sender and recipient at a later time, a second name / bid / feed of the same account)
+	{"PostFileAgain", []string{"PostFile"}}, {"NotifyAgain", []string{"Notify"}}, {"RegisterSecond", []string{"Register"}},
+	{"BidSecond", []string{"Bid"}}, {"CreateFeedSecond", []string{"CreateFeed"}},
 }
 
 func (C19) Events(env world.Env, mm mc.Model) []string {
@@ -87,6 +92,11 @@ func (C19) Events(env world.Env, mm mc.Model) []string {
 		ok := true
 		for _, p := range k.pre {
 			if !has(m.Done, p) {
+				ok = false
+			}
+		}
+		if k.name == "PostFileAgain" || k.name == "NotifyAgain" { // a later block: a different start height / timestamp
+			if at, done := m.At[k.pre[0]]; !done || at >= m.Blocks {
 				ok = false
 			}
 		}
@@ -115,6 +125,16 @@ func c19Do(env world.Env, m *c19Model, ev string) bool {
 	case "PostFile":
 		m.Start = env.Ctx().BlockHeight()
 		msg = storagetypes.NewMsgPostFile(u, f.merkle, 12, 0, 0, 3, "{}")
+	case "PostFileAgain":
+		msg = storagetypes.NewMsgPostFile(u, f.merkle, 12, 0, 0, 3, "{}")
+	case "NotifyAgain":
+		msg = notiftypes.NewMsgCreateNotification(b, u, `{"m":2}`, nil)
+	case "RegisterSecond":
+		msg = rnstypes.NewMsgRegisterName(u, "beta.jkl", 2, "{}", false)
+	case "BidSecond":
+		msg = rnstypes.NewMsgBid(b, "beta.jkl", sdk.NewInt64Coin("ujkl", 6))
+	case "CreateFeedSecond":
+		msg = oracletypes.NewMsgCreateFeed(u, "jklprice2")
 	case "Proof":
 		item, hl := f.proofFor(0)
 		msg = storagetypes.NewMsgPostProof(w.A(p[1]).Bech, f.merkle, u, m.Start, item, hl, 0)
@@ -327,6 +347,11 @@ func (C19) Apply(env world.Env, mm mc.Model, ev string) mc.Step {
 	w := env.W()
 	m := mm.(c19Model)
 	m.Done = append([]string{}, m.Done...)
+	at := map[string]int{}
+	for k, v := range m.At {
+		at[k] = v
+	}
+	m.At = at
 	st := mc.Step{Outcome: "rejected"}
 	if ev == "NextBlock" {
 		if bp := env.NextBlock(6 * time.Second); bp != nil {
@@ -340,6 +365,7 @@ func (C19) Apply(env world.Env, mm mc.Model, ev string) mc.Step {
 		}
 		m.Done = append(m.Done, ev)
 		sort.Strings(m.Done)
+		m.At[ev] = m.Blocks
 	}
 	vs, kinds := c19ModuleRoundTrip(w, env.Ctx())
 	st.Exercised = append(st.Exercised, "round-trip")
@@ -432,14 +458,22 @@ func init() {
 	Props["C19"] = Prop{Level: "model_checking", Run: func(r *mc.Run, tier string) {
 		r.Rules = append(r.Rules, "BFS over one event per record kind of the six custom modules (provider, collateral, plan+gauge, file, proofs, attestation form, report form; name+primary name, sub-record, bid, listing, init; file-tree root, pubkey, entry; feed; notification, block; minted blocks via NextBlock) in every order allowed by their prerequisites; in every reached state each module is exported, JSON round-tripped, validated and imported into a branch of a fresh node and every (key, value) of its store is compared by record kind, and the export is repeated; selected histories are additionally committed at the ABCI seam, exported with ExportAppStateAndValidators and imported by InitChain on a fresh node")
 		r.Assumptions = append(r.Assumptions, "a superset after import is allowed (e.g. materialised ActiveProviders)", "violations are keyed by (module store, record-kind prefix)")
-		res := r.AddExplore(C19{}, opts(tier, 5, 8, 50, 1200, 20, 200))
+		res := r.AddExplore(C19{}, opts(tier, 5, 9, 50, 1200, 20, 200))
 		paths := [][]string{}
 		all := []string{}
 		for _, k := range c19Kinds {
 			all = append(all, k.name)
 		}
-		all = append(all, "NextBlock", "NextBlock")
-		paths = append(paths, all, all[:8], all[8:13])
+		var first, again []string
+		for _, e := range all {
+			if strings.HasSuffix(e, "Again") || strings.HasSuffix(e, "Second") {
+				again = append(again, e)
+			} else {
+				first = append(first, e)
+			}
+		}
+		all = append(append(append(first, "NextBlock"), again...), "NextBlock")
+		paths = append(paths, all, all[:8], all[8:13], []string{"BuyStorage", "PostFile", "NextBlock", "PostFileAgain"})
 		if tier == "thorough" {
 			for i := 1; i < len(all); i += 2 {
 				paths = append(paths, all[:i])
